@@ -580,6 +580,10 @@ type checker struct {
 	ovCands []version
 	// quiet keeps the event log free of scheduling-dependent lines.
 	quiet bool
+	// mute silences the whole run (repetitions of an overlapping case).
+	mute bool
+	// candCache carries the candidate tables over to repetitions.
+	candCache *[]version
 	// ovRenames counts the renames onto the destination during the overlap.
 	ovRenames int
 }
@@ -587,7 +591,24 @@ type checker struct {
 // logf writes to the event log unless the run is in a phase whose details
 // depend on the thread interleaving.
 func (ck *checker) logf(format string, args ...any) {
-	if !ck.quiet {
+	if !ck.quiet && !ck.mute {
+		ck.c.Eventf(format, args...)
+	}
+}
+
+// class maps the class of a torn-state violation: what overlapping saves do
+// to each other depends on the schedule and shows up as a visible or as a
+// power-loss state from run to run, so those share one class.
+func (ck *checker) class(c string) string {
+	if ck.inOverlap() {
+		return "torn-overlapping-saves"
+	}
+	return c
+}
+
+// evf is Eventf unless the run is muted.
+func (ck *checker) evf(format string, args ...any) {
+	if !ck.mute {
 		ck.c.Eventf(format, args...)
 	}
 }
@@ -736,7 +757,7 @@ func (ck *checker) crashStates(at int, ino *crashfs.Inode) error {
 		ck.c.Fault("crash_state")
 		m := ck.matchPower(false, data)
 		if m < 0 {
-			return kernel.Violationf("torn-after-power-loss",
+			return kernel.Violationf(ck.class("torn-after-power-loss"),
 				"%s: power loss after syscall #%d (save %d): with un-synced blocks persisted as %q the destination holds %s, which is none of the complete versions %v",
 				ck.label, at, ck.curSave, name, describe(data), ck.allowedPower())
 		}
@@ -892,7 +913,7 @@ func (ck *checker) boundary(at int) error {
 			} else if ck.inSave {
 				want = append(want, ck.versions[ck.curSave])
 			}
-			return kernel.Violationf("torn-visible",
+			return kernel.Violationf(ck.class("torn-visible"),
 				"%s: after syscall #%d (save %d) the destination reads as %s, neither the complete previous nor the complete new version %v",
 				ck.label, at, ck.curSave, what, want)
 		}
@@ -905,7 +926,7 @@ func (ck *checker) boundary(at int) error {
 	for _, id := range ck.cands {
 		if id < 0 {
 			if ck.matchPower(true, nil) < 0 {
-				return kernel.Violationf("missing-after-power-loss",
+				return kernel.Violationf(ck.class("missing-after-power-loss"),
 					"%s: power loss after syscall #%d (save %d): the destination may not exist although a version existed before (%v)",
 					ck.label, at, ck.curSave, ck.allowedPower())
 			}
@@ -964,17 +985,24 @@ func (ck *checker) replay(init map[string][]byte) error {
 						return fmt.Errorf("harness: no helper result for the overlapping save (exit %d, stderr %q)", r.exitCode, r.stderr)
 					}
 					muts := r.result.Saves[k-1].Muts
-					ck.ovCands, err = leaseCandidates(ck.prev, muts)
-					if err != nil {
-						return err
+					if ck.candCache != nil && *ck.candCache != nil {
+						ck.ovCands = *ck.candCache
+					} else {
+						ck.ovCands, err = leaseCandidates(ck.prev, muts)
+						if err != nil {
+							return err
+						}
+						if ck.candCache != nil {
+							*ck.candCache = ck.ovCands
+						}
 					}
-					ck.c.Eventf("%s save %d (overlap) begins; destination %s; %d leases added at the same time, %d candidate tables", ck.label, k, ck.prev, len(muts), len(ck.ovCands))
+					ck.evf("%s save %d (overlap) begins; destination %s; %d leases added at the same time, %d candidate tables", ck.label, k, ck.prev, len(muts), len(ck.ovCands))
 					// From here on the order of events is up to the scheduler.
 					ck.quiet = true
 					ck.c.Probe("overlapping_saves")
 					continue
 				}
-				ck.c.Eventf("%s save %d (%s) begins; destination %s; new version %s", ck.label, k, ck.sc.Saves[k-1].Op, ck.prev, ck.versions[k])
+				ck.evf("%s save %d (%s) begins; destination %s; new version %s", ck.label, k, ck.sc.Saves[k-1].Op, ck.prev, ck.versions[k])
 			case strings.HasPrefix(eff.Marker, "save-end-"):
 				if err = ck.saveEnd(); err != nil {
 					return err
@@ -1069,7 +1097,7 @@ func (ck *checker) saveEnd() error {
 		// microseconds in either order): the helper's reading only has to be
 		// one of the complete candidates, like everything seen on the way.
 		if !ck.matchOverlap(ck.r.after[k-1].absent, ck.r.after[k-1].data) {
-			return kernel.Violationf("torn-visible", "%s: after the overlapping saves (save %d) the destination reads as %s, none of the complete candidates %v",
+			return kernel.Violationf("torn-overlapping-saves", "%s: after the overlapping saves (save %d) the destination reads as %s, none of the complete candidates %v",
 				ck.label, k, ck.r.after[k-1], ck.ovCands)
 		}
 		failed := 0
@@ -1084,7 +1112,7 @@ func (ck *checker) saveEnd() error {
 		if ck.ovRenames >= 2 {
 			ck.c.Probe("overlap_two_renames_onto_dest")
 		}
-		ck.c.Eventf("%s save %d (overlap) ends: destination is a complete candidate", ck.label, k)
+		ck.evf("%s save %d (overlap) ends: destination is a complete candidate", ck.label, k)
 		absent2, data2, _ := ck.destView()
 		ck.prev = version{absent: absent2, data: data2}
 		ck.c.Step()
@@ -1106,7 +1134,7 @@ func (ck *checker) saveEnd() error {
 	case isOld:
 		outcome = "old"
 	}
-	ck.c.Eventf("%s save %d ends: destination %s; reported_failure=%v err=%q", ck.label, k, outcome, sr.Reported, ck.r.normText(sr.Err))
+	ck.evf("%s save %d ends: destination %s; reported_failure=%v err=%q", ck.label, k, outcome, sr.Reported, ck.r.normText(sr.Err))
 	faultHere := ck.injSave == k && ck.injSeen > 0
 	switch {
 	case isOld && !isNew && !sr.Reported:
@@ -1225,12 +1253,42 @@ func run(t *testing.T, scAny any, c *kernel.Ctx) error {
 		c.Probe("save_from_absent")
 	}
 	versions := append([]version{v0}, r.after...)
-	ck := &checker{sc: sc, c: c, r: r, dest: DestPath(sc.Kind, r.work), versions: versions, baseline: true, label: "base"}
+	var candCache []version
+	ck := &checker{sc: sc, c: c, r: r, dest: DestPath(sc.Kind, r.work), versions: versions, baseline: true, label: "base", candCache: &candCache}
 	if err = ck.replay(init); err != nil {
 		return err
 	}
 	if err = ck.finalCompare(); err != nil {
 		return err
+	}
+	if hasOverlap(sc.Saves) {
+		// How the concurrent saves interleave is up to the scheduler: run
+		// the same thing a few more times (not exactly replayable; the event
+		// log only carries what does not depend on the schedule).
+		for rep := 1; rep < overlapReps; rep++ {
+			rr, rerr := runHelper(base, 1000+rep, sc, sc.Saves, init, nil)
+			if rerr != nil {
+				if rr != nil {
+					rr.cleanup()
+				}
+				return rerr
+			}
+			if rr.result == nil || len(rr.after) != len(sc.Saves) {
+				rr.cleanup()
+				return fmt.Errorf("harness: repetition %d of the overlapping case failed: exit=%d stderr=%q", rep, rr.exitCode, rr.stderr)
+			}
+			vr := append([]version{v0}, rr.after...)
+			ckr := &checker{sc: sc, c: c, r: rr, dest: DestPath(sc.Kind, rr.work), versions: vr, label: "base", mute: true, candCache: &candCache}
+			err = ckr.replay(init)
+			if err == nil {
+				err = ckr.finalCompare()
+			}
+			rr.cleanup()
+			if err != nil {
+				return err
+			}
+			c.Probe("overlap_repetition")
+		}
 	}
 	for k, s := range r.result.Saves {
 		if s.Err != "" {
@@ -1349,6 +1407,9 @@ func tail(s string, n int) string {
 	}
 	return s
 }
+
+// overlapReps is how often the baseline of a case with overlapping saves runs.
+const overlapReps = 5
 
 // maxWhen is the largest ordinal strace's inject=...:when= accepts.
 const maxWhen = 65535
